@@ -312,6 +312,8 @@ class Engine:
             env[a.kwarg.arg] = p.alloc(HDict())
         for g, gt in c.ghost.items():
             env[g] = self.make_symbolic(p, g, gt)
+        for flag in c.extra.get("ghost_flags", []):
+            p.ghost[flag] = True
         if c.setup:
             c.setup(p, env)
         self.install_fs_hooks(p, c)
